@@ -700,3 +700,155 @@ Proof.
   - intros y Hy. apply in_map_iff in Hy. destruct Hy as (p & <- & Hp). apply Hdp.
     eapply Permutation_in; [apply Permutation_sym; exact P|exact Hp].
 Qed.
+
+(* ------------------------------------------------------------------ 10. indices continue: no collisions, time order *)
+Definition before (b1 b2 : list Z) : Prop := forall v w, In v b1 -> In w b2 -> (v < w)%Z.
+Definition in_own_range (f : part -> cdz) (p : part) : Prop :=
+  Forall (fun v => (0 <= v < Z.of_nat (nuniq f p))%Z) (zexpand (f p)).
+
+Lemma running_sorted f : forall ps so, Forall (in_own_range f) ps ->
+  Forall (Forall (fun v => (Z.of_nat so <= v < Z.of_nat (so + list_sum (map (nuniq f) ps)))%Z)) (running_lists f ps so) /\
+  StronglySorted before (running_lists f ps so).
+Proof.
+  unfold running_lists. induction ps as [|p ps IH]; intros so F; simpl; [split; constructor|].
+  inversion F as [|? ? R F']; subst. destruct (IH (so + nuniq f p) F') as (A & B).
+  assert (H0 : Forall (fun v => (Z.of_nat so <= v < Z.of_nat (so + nuniq f p))%Z)
+                      (map (fun v => (v + Z.of_nat so)%Z) (zexpand (f p)))).
+  { unfold in_own_range in R. rewrite Forall_forall in *. intros v Hv. apply in_map_iff in Hv.
+    destruct Hv as (x & <- & Hx). specialize (R x Hx). lia. }
+  split.
+  - constructor.
+    + eapply Forall_impl; [|exact H0]. cbn beta. intros; lia.
+    + eapply Forall_impl; [|exact A]. intros blk Hb. eapply Forall_impl; [|exact Hb]. cbn beta. intros; lia.
+  - constructor; [exact B|]. rewrite Forall_forall in *. intros blk Hblk v w Hv Hw.
+    specialize (A blk Hblk). rewrite Forall_forall in A. specialize (A w Hw). specialize (H0 v Hv). lia.
+Qed.
+
+Lemma indices_continue f ps : Forall (in_own_range f) ps ->
+  spec_running f ps = concat (running_lists f ps 0) /\
+  length (running_lists f ps 0) = length ps /\
+  (forall i p, nth_error ps i = Some p ->
+     nth_error (running_lists f ps 0) i
+     = Some (map (fun v => (v + Z.of_nat (list_sum (firstn i (map (nuniq f) ps))))%Z) (zexpand (f p)))) /\
+  StronglySorted before (running_lists f ps 0).
+Proof.
+  intro F. split; [reflexivity|]. split; [|split; [|apply running_sorted; exact F]].
+  - unfold running_lists. rewrite map_length, combine_length, offs_from_length, map_length. lia.
+  - assert (G : forall ps so i p, nth_error ps i = Some p ->
+      nth_error (running_lists f ps so) i
+      = Some (map (fun v => (v + Z.of_nat (so + list_sum (firstn i (map (nuniq f) ps))))%Z) (zexpand (f p)))).
+    { clear. unfold running_lists. induction ps as [|q ps IH]; intros so [|i] p H; simpl in *; try discriminate.
+      - inversion H; subst. f_equal. apply map_ext. intro v. lia.
+      - rewrite (IH (so + nuniq f q) i p H). f_equal. apply map_ext. intro v. unfold list_sum. cbn [fold_right]. lia. }
+    intros i p H. exact (G ps 0 i p H).
+Qed.
+
+(* ------------------------------------------------------------------ 11. any other sensor: concatenation with dummy fill *)
+Lemma dummy_cd_facts d n : 0 < n ->
+  cd_ok n (make Z.eqb [d] [0; n]) /\ zexpand (make Z.eqb [d] [0; n]) = repeat d n.
+Proof.
+  intro P. split.
+  - split; [|split; [|split]].
+    + apply (make_WF Z.eqb zd zeqb_spec); [simpl; auto|reflexivity].
+    + reflexivity.
+    + discriminate.
+    + reflexivity.
+  - unfold zexpand. rewrite (make_expand Z.eqb zd zeqb_spec). simpl. rewrite Nat.sub_0_r. apply app_nil_r.
+Qed.
+
+Lemma get_sensor_ext ps ps' name ar : map p_sens ps = map p_sens ps' -> map nT ps = map nT ps' ->
+  get_sensor ps name ar = get_sensor ps' name ar /\ spec_sensor ps name = spec_sensor ps' name.
+Proof.
+  intros A B. unfold get_sensor, spec_sensor.
+  assert (X : map (fun p => find_sens name (p_sens p)) ps = map (fun p => find_sens name (p_sens p)) ps').
+  { rewrite <- (map_map p_sens (find_sens name)), A, map_map. reflexivity. }
+  rewrite X, B. split; reflexivity.
+Qed.
+
+Definition sens_ok (name : Z) (p : part) : Prop :=
+  0 < nT p /\ forall dt c, find_sens name (p_sens p) = Some (SCat dt c) -> cd_ok (nT p) c.
+
+Lemma existsb_false_in {A} (g : A -> bool) l x : existsb g l = false -> In x l -> g x = false.
+Proof.
+  intros H Hx. destruct (g x) eqn:E; [|reflexivity]. exfalso.
+  assert (existsb g l = true) by (apply existsb_exists; eauto). congruence.
+Qed.
+
+Lemma in_combine_map {A B C} (g : A -> B) (h : A -> C) l x y : In (x, y) (combine (map g l) (map h l)) ->
+  exists a, In a l /\ x = g a /\ y = h a.
+Proof.
+  induction l as [|a l IH]; simpl; [tauto|]. intros [H|H].
+  - inversion H; subst. exists a. auto.
+  - destruct (IH H) as (a' & Ha & E1 & E2). exists a'. auto.
+Qed.
+
+Theorem sensor_expand : forall ps name ar, Forall (sens_ok name) ps ->
+  match get_sensor ps name ar with
+  | RNum l => spec_sensor ps name = Some l
+  | RCat c => spec_sensor ps name = Some (zexpand c) /\ cd_ok (list_sum (map nT ps)) c
+  | RKeyError => spec_sensor ps name = None
+  | RFail => True
+  end.
+Proof.
+  intros ps name ar OK. unfold get_sensor, spec_sensor.
+  set (xs := map (fun p => find_sens name (p_sens p)) ps).
+  destruct (forallb is_absent xs) eqn:A; [reflexivity|].
+  destruct (existsb is_cat xs) eqn:C.
+  - destruct (existsb is_num xs) eqn:Nm; [exact Logic.I|].
+    destruct (cat_dtype xs) as [dt|]; [|exact Logic.I].
+    set (pieces := map (fun nx => cat_piece (dummy_code dt) (fst nx) (snd nx)) (combine (map nT ps) xs)).
+    destruct (zcat pieces ar) as [c|] eqn:Z; [|exact Logic.I].
+    assert (F : Forall2 cd_ok (map nT ps) pieces).
+    { unfold pieces, xs. clear -OK. induction OK as [|p ps (P & H) _ IH]; simpl; constructor; [|exact IH].
+      unfold cat_piece. destruct (find_sens name (p_sens p)) as [[fl l|dt' c0]|] eqn:E.
+      - apply dummy_cd_facts; exact P.
+      - exact (H dt' c0 eq_refl).
+      - apply dummy_cd_facts; exact P. }
+    destruct (zcat_facts _ _ _ _ F Z) as (OKc & Ec & _). split; [|exact OKc].
+    f_equal. rewrite Ec. unfold pieces. rewrite map_map. f_equal. apply map_ext_in.
+    intros (n, o) Hin. cbn [fst snd].
+    destruct (in_combine_map nT (fun p => find_sens name (p_sens p)) ps n o Hin) as (p & Hp & -> & ->).
+    rewrite Forall_forall in OK. destruct (OK p Hp) as (P & _).
+    assert (Hx : In (find_sens name (p_sens p)) xs) by (unfold xs; apply in_map_iff; eauto).
+    pose proof (existsb_false_in _ _ _ Nm Hx) as NN.
+    destruct (find_sens name (p_sens p)) as [[fl l|dt' c0]|]; cbn [cat_piece]; try reflexivity; try discriminate.
+    symmetry. apply dummy_cd_facts. exact P.
+  - f_equal. f_equal. apply map_ext_in. intros (n, o) Hin. cbn [fst snd].
+    destruct (in_combine_map nT (fun p => find_sens name (p_sens p)) ps n o Hin) as (p & Hp & -> & ->).
+    assert (Hx : In (find_sens name (p_sens p)) xs) by (unfold xs; apply in_map_iff; eauto).
+    pose proof (existsb_false_in _ _ _ C Hx) as NC.
+    destruct (find_sens name (p_sens p)) as [[fl l|dt' c0]|]; cbn [num_piece]; try reflexivity; discriminate.
+Qed.
+
+(* ------------------------------------------------------------------ 12. time selection: slices of the global mask *)
+Lemma mask_sel_app {A} : forall (m1 m2 : list bool) (l1 l2 : list A), length m1 = length l1 ->
+  mask_sel (m1 ++ m2) (l1 ++ l2) = mask_sel m1 l1 ++ mask_sel m2 l2.
+Proof.
+  induction m1 as [|b m1 IH]; intros m2 [|x l1] l2 L; simpl in *; try discriminate; [reflexivity|].
+  injection L as L. destruct b; simpl; rewrite IH; auto.
+Qed.
+
+Lemma cut_concat {A} : forall ns (l : list A), length l = list_sum ns -> concat (cut ns l) = l.
+Proof.
+  induction ns as [|n ns IH]; intros l L; simpl in *.
+  - destruct l; [reflexivity|discriminate].
+  - rewrite IH; [apply firstn_skipn|]. rewrite skipn_length. lia.
+Qed.
+
+Lemma cut_lengths {A} : forall ns (l : list A), length l = list_sum ns -> map (@List.length A) (cut ns l) = ns.
+Proof.
+  induction ns as [|n ns IH]; intros l L; simpl in *; [reflexivity|].
+  rewrite firstn_length_le by lia. f_equal. apply IH. rewrite skipn_length. lia.
+Qed.
+
+Lemma selected_pieces_spec : forall ps (keep : list bool) (l : list Z),
+  length l = list_sum (map nT ps) -> length keep = list_sum (map nT ps) ->
+  selected_pieces ps keep (cut (map nT ps) l) = mask_sel keep l.
+Proof.
+  intros ps keep l. unfold selected_pieces. generalize (map nT ps) as ns. clear ps.
+  induction ns as [|n ns IH] in keep, l |- *; intros L K; simpl in *.
+  - destruct keep; [|discriminate]. reflexivity.
+  - rewrite IH by (rewrite skipn_length; lia).
+    rewrite <- mask_sel_app by (rewrite !firstn_length_le by lia; reflexivity).
+    rewrite !firstn_skipn. reflexivity.
+Qed.
